@@ -29,7 +29,7 @@ def cases(draw, tier):
     return dict(nl=nl, lanes=lanes, stim=[[list(x) for x in row] for row in stim], dpool=dpool,
                 caps=draw(st.sampled_from([4, 8, 16, 16, 32, 64])),
                 w_reuse=draw(st.booleans()), w_strip=draw(st.booleans()), l_reuse=draw(st.booleans()), l_strip=draw(st.booleans()),
-                cuda=draw(st.sampled_from([False, False, True])))
+                cuda=draw(st.sampled_from([False, False, True])), far=draw(st.sampled_from([0, 0, 1, 2])))
 
 
 def prop(case):
@@ -58,7 +58,11 @@ def prop(case):
             ws.s[0, row, lane] = (code >> 1) & 1
             ws.s[1, row, lane] = t / 61.0
             ws.s[2, row, lane] = code & 1
-    ws.s_to_c(); ws.c_prop(); ws.c_to_s()
+    ws.s_to_c(); ws.c_prop()
+    if case.get('far'):             # capture options do not change initial / final value and arrival times: a far capture time with sd > 0
+        ws.c_to_s(time=-10000.0 if case['far'] == 1 else 100000.0, sd=0.5)
+    else:
+        ws.c_to_s()
     ls.s[0] = pack_bp(mv)
     ls.s_to_c(); ls.c_prop(); ls.c_to_s()
     res = unpack_bp(ls.s[1], lanes)
@@ -105,4 +109,4 @@ def prop(case):
     return Obs(masked and active, labels, checks=len(outs) * lanes)
 
 
-PARTS = [Part('diff', prop, strategy=cases, quick=(8, 250), thorough=(16, 10000))]
+PARTS = [Part('diff', prop, strategy=cases, quick=(8, 500), thorough=(16, 10000))]
